@@ -1,0 +1,94 @@
+//go:build verif
+// +build verif
+
+package linker
+
+// Exports for the /verif correspondence harness (build tag "verif" only). Add-only.
+
+import (
+	"hash"
+
+	"github.com/evanw/esbuild/internal/config"
+	"github.com/evanw/esbuild/internal/graph"
+	"github.com/evanw/esbuild/internal/sourcemap"
+)
+
+type VerifPiece struct {
+	Data  []byte
+	Index uint32
+	Kind  uint8 // 0 none, 1 asset, 2 chunk
+}
+
+func verifContext(prefix string, nFiles int, chunkPaths []string, publicPath string) *linkerContext {
+	c := &linkerContext{
+		uniqueKeyPrefix:      prefix,
+		uniqueKeyPrefixBytes: []byte(prefix),
+		options:              &config.Options{PublicPath: publicPath},
+		graph:                graph.LinkerGraph{Files: make([]graph.LinkerFile, nFiles)},
+	}
+	c.chunks = make([]chunkInfo, len(chunkPaths))
+	for i, p := range chunkPaths {
+		c.chunks[i].finalRelPath = p
+		c.chunks[i].uniqueKey = verifUniqueKey(prefix, 'C', uint32(i))
+	}
+	return c
+}
+
+func verifUniqueKey(prefix string, kind byte, index uint32) string {
+	digits := [8]byte{}
+	for i := 7; i >= 0; i-- {
+		digits[i] = byte('0' + index%10)
+		index /= 10
+	}
+	return prefix + string(kind) + string(digits[:])
+}
+
+// VerifBreakOutputIntoPieces runs the real breakOutputIntoPieces with the given key prefix and
+// numbers of files/chunks.
+func VerifBreakOutputIntoPieces(prefix string, nFiles int, nChunks int, output []byte) []VerifPiece {
+	c := verifContext(prefix, nFiles, make([]string, nChunks), "")
+	out := c.breakOutputIntoPieces(output)
+	res := make([]VerifPiece, len(out.pieces))
+	for i, p := range out.pieces {
+		res[i] = VerifPiece{Data: p.data, Index: p.index, Kind: uint8(p.kind)}
+	}
+	return res
+}
+
+// VerifSubstituteAndCount runs the real substituteFinalPaths and accurateFinalByteCount on chunk-kind
+// pieces with a public path (so that no file system is involved).
+func VerifSubstituteAndCount(prefix string, chunkPaths []string, publicPath string, pieces []VerifPiece) (joined []byte, count int, shifts []sourcemap.SourceMapShift) {
+	c := verifContext(prefix, 0, chunkPaths, publicPath)
+	io := intermediateOutput{}
+	for _, p := range pieces {
+		io.pieces = append(io.pieces, outputPiece{data: p.Data, index: p.Index, kind: outputPieceIndexKind(p.Kind)})
+	}
+	j, shifts := c.substituteFinalPaths(io, func(finalRelPathForImport string) string {
+		return c.pathBetweenChunks("", finalRelPathForImport)
+	})
+	return j.Done(), c.accurateFinalByteCount(io, ""), shifts
+}
+
+type verifRecordingHash struct{ data []byte }
+
+func (h *verifRecordingHash) Write(p []byte) (int, error) { h.data = append(h.data, p...); return len(p), nil }
+func (h *verifRecordingHash) Sum(b []byte) []byte          { return append(b, h.data...) }
+func (h *verifRecordingHash) Reset()                       { h.data = nil }
+func (h *verifRecordingHash) Size() int                    { return 0 }
+func (h *verifRecordingHash) BlockSize() int               { return 1 }
+
+var _ hash.Hash = (*verifRecordingHash)(nil)
+
+// VerifHashPreimage returns the bytes fed to the hash by hashWriteLengthPrefixed / hashWriteUint32
+// for a sequence of items (isUint32[i] selects hashWriteUint32 of uint32s[i]).
+func VerifHashPreimage(items [][]byte, isUint32 []bool, uint32s []uint32) []byte {
+	h := &verifRecordingHash{}
+	for i := range items {
+		if isUint32[i] {
+			hashWriteUint32(h, uint32s[i])
+		} else {
+			hashWriteLengthPrefixed(h, items[i])
+		}
+	}
+	return h.data
+}
